@@ -938,18 +938,18 @@ class Interp:
                 if z3.is_true(z3.simplify(c.cond)):
                     j = z3.Int('j!l')
                     vj = self.box(self.subst_sv(c.val, c.K, j))
-                    st.assume(z3.ForAll([j], z3.Implies(z3.And(0 <= j, j < c.length), a2[j] == vj),
+                    st.fact(z3.ForAll([j], z3.Implies(z3.And(0 <= j, j < c.length), a2[j] == vj),
                                         patterns=[a2[j]]))
                     n = c.length
                 else:
                     n = self.ccnt(c)
-                    st.assume(n >= 0)
+                    st.fact(n >= 0)
                     j = z3.Int('j!l')
                     w = z3.Function(f'wit!{st.fresh_n}', I, I)
                     st.fresh_n += 1
                     vj = self.box(self.subst_sv(c.val, c.K, w(j)))
                     cj = z3.substitute(c.cond, (c.K, w(j)))
-                    st.assume(z3.ForAll([j], z3.Implies(z3.And(0 <= j, j < n),
+                    st.fact(z3.ForAll([j], z3.Implies(z3.And(0 <= j, j < n),
                                                         z3.And(0 <= w(j), w(j) < c.length, cj, a2[j] == vj)),
                                         patterns=[a2[j]]))
                 arr = a2
@@ -1967,7 +1967,7 @@ class Interp:
         raise PyRaise(AttributeError, (), f'?.{attr}')
 
     def _assume_last(self, c) -> bool:
-        self.st.assume(c)
+        self.st.fact(c)
         return True
 
     def super_getattr(self, sup: SV, attr: str) -> SV:
@@ -2362,8 +2362,19 @@ class Interp:
 
     def heap_version(self):
         """An integer identifying the current heap state (same arrays -> same number)."""
-        key = tuple(sorted((k, v.get_id()) for k, v in self.st.heap.items()
-                           if not (z3.is_const(v) and v.decl().name() == k + '@0')))
+        def base(v):
+            # stores at objects allocated during this call do not change what pre-existing objects
+            # look like: strip them (outermost first)
+            while z3.is_app(v) and v.decl().kind() == z3.Z3_OP_STORE and self.fresh_offset(v.arg(1)) is not None:
+                v = v.arg(0)
+            return v
+        items = []
+        for k, v in self.st.heap.items():
+            b = base(v)
+            if z3.is_const(b) and b.decl().name() == k + '@0':
+                continue
+            items.append((k, b.get_id()))
+        key = tuple(sorted(items))
         tab = self.shared.setdefault('heap_versions', {})
         if key not in tab:
             tab[key] = (len(tab) + 1, dict(self.st.heap))      # keep the ASTs alive
@@ -2934,14 +2945,14 @@ class Interp:
             if p['out'][1].exc_cls not in classes:
                 classes.append(p['out'][1].exc_cls)
         ks = st.fresh('kr', I)
-        st.assume(z3.And(0 <= ks, ks < length))
-        st.assume(self.qf(True, j, z3.Implies(z3.And(0 <= j, j < ks), z3.Not(Rj)), pats))
+        st.fact(z3.And(0 <= ks, ks < length))
+        st.fact(self.qf(True, j, z3.Implies(z3.And(0 <= j, j < ks), z3.Not(Rj)), pats))
         for ci, cl in enumerate(classes):
             # the raising element also has everything that was learnt about it on that path
             Rc = z3.Or(*[z3.And(self.path_cond(p), *p['facts'][1:]) for p in raises if p['out'][1].exc_cls is cl])
             Rck = z3.substitute(Rc, (K, ks))
             if ci == len(classes) - 1:
-                st.assume(Rck)
+                st.fact(Rck)
                 raise PyRaise(cl, (), 'in comprehension')
             if self.decide(Rck):
                 raise PyRaise(cl, (), 'in comprehension')
@@ -3120,6 +3131,12 @@ class Interp:
             st.obligations.extend(p['obl'])
         j = z3.Int('j!s')
         pats = self.comp_patterns(seg, j)
+        # what was learnt about the generic element (typing, callee postconditions) holds for every
+        # element of the segment
+        for p in paths:
+            if len(p['facts']) > 1:
+                body_ = z3.Implies(z3.And(0 <= K, K < length, *p['dec']), z3.And(*p['facts'][1:]))
+                st.fact(self.qf(True, j, z3.substitute(body_, (K, j)), pats))
         FT = z3.Or(*[self.path_cond(p) for p in ft]) if ft else z3.BoolVal(False)
         FTj = z3.substitute(FT, (K, j))
         if exits:
@@ -3188,6 +3205,11 @@ class Interp:
             cond = z3.simplify(z3.Or(*conds))
             val = self.merge_values(cases)
             c = self.register_comp(seg, K, length, cond, val, 'list')
+            ef = [z3.Implies(self.path_cond(p), z3.And(*p['facts'][1:])) for p in ft if len(p['facts']) > 1]
+            if ef:
+                kf = z3.And(*ef)
+                kf = kf if K.eq(c.K) else z3.substitute(kf, (K, c.K))
+                c.noraise = kf if c.noraise is None else z3.And(c.noraise, kf)
             before.py.segs.append(('comp', c))
         for di, (n, dv) in enumerate(dict_acc.items()):
             stores = []
@@ -3257,6 +3279,7 @@ class Interp:
             table[key] = len(table) + 1
         idx = table[key]
         c = CompResult(idx, Kc, length, cond_c, val_c, seg, kind, ctx)
+        c.pc = [e for e in st.pc if not has_quantifier(e)]     # context in which it was formed
         self.shared.setdefault('comp_info', {})[idx] = c
         cnt = self.ccnt(c)
         st.fact(cnt >= 0)
@@ -3527,6 +3550,7 @@ class CompResult:   # noqa: F811  (final definition)
     def __init__(self, idx, K, length, cond, val, seg, kind, ctx=()):
         self.ctx = list(ctx)
         self.noraise = None       # what is known of every element on this path (no element raises)
+        self.pc = []
         self.idx = idx
         self.K = K
         self.length = length
